@@ -454,6 +454,15 @@ def evaluation_time_filter(ctx) -> None:
                 if any(v is None for v in vals):
                     return None
                 return all(vals) if t[1] == "and" else any(vals)
+            if t[0] == "cmp" and t[1] == ">" and "len(" in show(t[2]) and "evaluation_times" in show(t[2]) and strip_typed(t[3]) == ("const", 0):
+                return True if own_given else None       # a non-emptiness guard: immaterial for the table
+            if "evaluation_times" in show(t) and "default_evaluation_times" not in show(t):
+                # a hand-written membership test in the observable's own times: it must range over *all* of them
+                txt = show(t)
+                universal = ("any(" in txt or ".any()" in txt or " in " in txt or "isclose" in txt) and "bisect" not in txt
+                if not universal:
+                    partial.append(txt[:90])
+                return OWN
             return None
 
         # the two membership tests are asked about *this* time and *this* observable's times, of the run's config
@@ -482,6 +491,7 @@ def evaluation_time_filter(ctx) -> None:
                "membership is tested for the time argument in the observable's own evaluation_times / the config's defaults"
                if arg_bad is None else
                f"{K.name}._is_evaluation_time asks {arg_bad}: not (the time, the observable's own evaluation_times) of the run's config")
+        partial: list = []
         ok = bool(table)
         wrong = []
         for og_path, rs in table.items():
@@ -498,6 +508,12 @@ def evaluation_time_filter(ctx) -> None:
                                 wrong.append(f"own times {'given' if og else 'absent'}, t {'in' if OWN else 'not in'} own times, "
                                              f"{'a' if DEF else 'not a'} default time → {v}")
         rows = {True: wrong[:1], False: []}
+        ctx.ob("ONCE-filter", f"{K.name}._is_evaluation_time own-times membership", f.loc(), not partial,
+               "membership in the observable's own times is decided over all of them (Pulser's is_time_in_evaluation_times)"
+               if not partial else
+               f"{K.name}._is_evaluation_time decides membership in the observable's own times by `{partial[0]}`, which does not "
+               f"range over every requested time (a single neighbour found by bisection is missed when t·T/T rounds up by one ulp): "
+               f"the observable is silently skipped at such times")
         ctx.ob("ONCE-filter", f"{K.name}._is_evaluation_time", f.loc(), ok,
                "own evaluation times given → due exactly at those; none given → due at the default evaluation times" if ok else
                f"{K.name}._is_evaluation_time returns {got}, which is not (t in own times) when own times are given and "
